@@ -1,6 +1,7 @@
 import CstModel.Driver.BuilderArea
 import CstModel.Driver.InternArea
 import CstModel.Driver.GreenArea
+import CstModel.Driver.RedArea
 open Cst Cst.Drv
 
 def sessionStep (s : DState) : List String → Option (DState × String)
@@ -35,7 +36,13 @@ def stepLine (s : DState) (line : String) : DState × String :=
       | none =>
         match greenStep s ws with
         | some r => r
-        | none => (s, "bad-op")
+        | none =>
+          match redStep s ws with
+          | some r => r
+          | none =>
+            match fmtStep s ws with
+            | some r => r
+            | none => (s, "bad-op")
 
 partial def loop (h : IO.FS.Stream) (out : IO.FS.Stream) (s : DState) : IO Unit := do
   let line ← h.getLine
